@@ -28,8 +28,8 @@ PROBE_IDS = {'s': (203, 205, 207), 'c': (204, 206, 208)}
 
 def plan(tier, seed):
     return [('parser-fuzz', 250 if tier == 'quick' else 12000),
-            ('hostile-frames', 900 if tier == 'quick' else 30000),
-            ('failing-app', 700 if tier == 'quick' else 25000),
+            ('hostile-frames', 4000 if tier == 'quick' else 40000),
+            ('failing-app', 3000 if tier == 'quick' else 30000),
             ('adapters', len(_adapter_cases()))]
 
 
